@@ -98,7 +98,15 @@ def judge_model(acc, cls, where, model, payload, key):
                 # dependency: Node.pretty_str leaves `res` unbound for an aggregate with a single operand
                 tags = ["ctc:aggregate-1arg"]
                 bad_dep = True
-            acc.fail(cls, "usable-by-every-consumer", where, tags, f"raises:{type(e).__name__}@core.pretty_str" if tags
+            elif inner.co_name in ("get_clauses", "get_clause_from_or_node") and "flamapy/core/models/ast.py" in inner.co_filename:
+                # dependency: simplify_formula mishandles XOR/EQUIVALENCE, the CNF is malformed and get_clauses
+                # meets an operator where it expects a literal (see C10/C18 findings)
+                ops = set()
+                for c in model.ctcs:
+                    ops |= {o.name for o in c.ast.get_operators()}
+                tags = sorted({"ctc:XOR", "ctc:EQUIVALENCE"} & {"ctc:" + o for o in ops})
+                bad_dep = bool(tags)
+            acc.fail(cls, "usable-by-every-consumer", where, tags, f"raises:{type(e).__name__}@core.{inner.co_name}" if tags
                      else f"{name}:raises:{type(e).__name__}", f"{name}: {type(e).__name__}: {str(e)[:150]}", payload, key)
             if not tags:
                 return
